@@ -91,6 +91,7 @@ type Check struct {
 	Notes      []string
 	NeedTwo    bool
 	Exhaustive bool
+	replaysRun int
 }
 
 var verifDir = "/verif"
@@ -106,11 +107,21 @@ func NewCheck(prop, tier string) *Check {
 	}
 	c.WorkDir = filepath.Join(verifDir, "work", prop)
 	os.RemoveAll(c.WorkDir)
+	if old, _ := filepath.Glob(filepath.Join(verifDir, "replays", prop+"_*.json")); old != nil {
+		for _, f := range old {
+			os.Remove(f)
+		}
+	}
 	os.MkdirAll(c.WorkDir, 0o755)
 	return c
 }
 
-func (c *Check) Add(o *Obligation) { c.Obls = append(c.Obls, o) }
+func (c *Check) Add(o *Obligation) {
+	if f := os.Getenv("GOVC_ONLY"); f != "" && !strings.Contains(o.Name, f) {
+		return // debugging aid: restrict the run to matching obligations
+	}
+	c.Obls = append(c.Obls, o)
+}
 
 var nameSan = regexp.MustCompile(`[^A-Za-z0-9_.=+-]+`)
 
@@ -391,6 +402,11 @@ func runReplayTest(src string) (failed bool, out string) {
 func (c *Check) replay(r *ObResult) *ReplayRec {
 	rec := &ReplayRec{Obligation: r.Ob.Name, Property: c.Prop, Pos: r.Ob.Pos, Status: r.Status, Solver: r.Solver,
 		SolverOut: truncate(r.Output, 4000), SMTFile: r.SMTFile, Witness: r.Witness}
+	c.replaysRun++
+	if c.replaysRun > 16 {
+		rec.Note = "replay not run: more than 16 failing obligations in this check (replay the stored obligation with `govc replay` after fixing the first ones)"
+		return rec
+	}
 	if (r.Status == "violated" || r.Status == "undischarged" || r.Status == "engine-error") && r.Ob.Replay != nil {
 		src := r.Ob.Replay(r.Witness)
 		if src != "" {
